@@ -1,11 +1,10 @@
 (* Proofs about NV.Bcf.Lazy, part 3: LAZY = EAGER on the INFO block.  The walk over the n_info fields
-   is the eager one; the values agree for every (Number, Type) but Character / String arrays, where the
-   lazy path goes through noodles-vcf's `&str` array views: these percent-decode every piece and want
-   exactly one character per Character piece.  The classes are decidable predicates on the typed
-   string: [chars_plain] (every piece between commas is one ASCII byte) and [strs_plain] (no piece
-   changes under percent-decoding). *)
+   is the eager one, and since 0b0f2ab / e4c926c the values agree for every (Number, Type): Integer,
+   Float, Flag and String values are read by the same functions, a Character is one character and a
+   Character array is every character of every piece.  The only condition left, [info_ascii], is an
+   assumption of the EAGER MODEL (NV.Bcf.Strings takes a Character to be one byte), not a difference
+   of the two readers: a Character array has to be ASCII text for bytes to be characters. *)
 From Coq Require Import ZArith NArith List Bool Lia ZifyBool ZifyNat ZifyN.
-From NV Require Import Base.Percent.
 From NV Require Import Bcf.Ints Bcf.IntsProofs Bcf.Typed Bcf.Strings Bcf.StringsProofs Bcf.Genotype Bcf.StringMap
   Bcf.StringMapProofs Bcf.Record Bcf.RecordTyped Bcf.NeverPanics Bcf.Lazy Bcf.LazyProofs Bcf.LazySiteProofs.
 Import ListNotations.
@@ -96,47 +95,52 @@ Proof.
       rewrite app_length in Hn. cbn [length] in Hn. lia.
 Qed.
 
-(* ---------------------------------------------------------------- the classes *)
-Definition ascii_piece (p : str) : bool := match p with [c] => (c <? 128)%N | _ => false end.
-(* lazy-char-array-piece-not-one-char *)
-Definition chars_plain (s : str) : bool := forallb ascii_piece (split_on comma s).
-(* lazy-array-percent-escape *)
-Definition strs_plain (s : str) : bool := forallb (fun p => str_eqb (pct_dec p) p) (split_on comma s).
+(* ---------------------------------------------------------------- ASCII text: characters are bytes *)
+Definition ascii_str (s : str) : bool := forallb (fun b => (b <? 128)%N) s.
 
-Definition info_plain (ik : name -> option ikind) (kv : name * list N) : bool :=
+Lemma utf8_chars_fuel_ascii : forall s f, ascii_str s = true -> (length s <= f)%nat -> utf8_chars_fuel f s = s.
+Proof.
+  induction s as [|b s IH]; intros f Ha Hf.
+  - destruct f; reflexivity.
+  - destruct f as [|f]; [cbn [length] in Hf; lia|].
+    cbn [ascii_str forallb] in Ha. apply andb_prop in Ha. destruct Ha as [Hb Hs].
+    cbn [utf8_chars_fuel utf8_first]. rewrite Hb. rewrite IH; [reflexivity|exact Hs|cbn [length] in Hf; lia].
+Qed.
+
+Lemma utf8_chars_ascii : forall s, ascii_str s = true -> utf8_chars s = s.
+Proof. intros s H. unfold utf8_chars. apply utf8_chars_fuel_ascii; [exact H|apply le_n]. Qed.
+
+Lemma ascii_split : forall s, ascii_str s = true -> forallb ascii_str (split_on comma s) = true.
+Proof.
+  induction s as [|b s IH]; intros H; [reflexivity|].
+  cbn [ascii_str forallb] in H. apply andb_prop in H. destruct H as [Hb Hs]. specialize (IH Hs).
+  cbn [split_on]. destruct (N.eqb b comma); [cbn [forallb ascii_str]; exact IH|].
+  destruct (split_on comma s) as [|p ps]; cbn [forallb ascii_str] in *; [rewrite Hb; reflexivity|].
+  apply andb_prop in IH. destruct IH as [Hp Hps]. rewrite Hb, Hps. cbn [andb]. fold (ascii_str p). rewrite Hp. reflexivity.
+Qed.
+
+Lemma flat_chars_ascii : forall ps, forallb ascii_str ps = true -> flat_map utf8_chars ps = concat ps.
+Proof.
+  induction ps as [|p ps IH]; intros H; [reflexivity|].
+  cbn [forallb] in H. apply andb_prop in H. destruct H as [Hp Hps].
+  cbn [flat_map concat]. rewrite (utf8_chars_ascii p Hp), (IH Hps). reflexivity.
+Qed.
+
+Lemma utf8_valid_single : forall c, utf8_valid [c] = true -> (c < 128)%N.
+Proof.
+  intros c H. cbn [utf8_valid] in H. destruct (c <? 128)%N eqn:E; [lia|].
+  repeat match type of H with (if ?x then _ else _) = _ => destruct x; try discriminate H end.
+Qed.
+
+(* ---------------------------------------------------------------- the class *)
+(* the eager model's ASCII-Character assumption on an INFO Character array *)
+Definition info_ascii (ik : name -> option ikind) (kv : name * list N) : bool :=
   match ik (fst kv), dec_info_string (snd kv) with
-  | Some (KChar true), ROk (Some s) => chars_plain s
-  | Some (KStr true), ROk (Some s) => strs_plain s
+  | Some (KChar true), ROk (Some s) => ascii_str s
   | _, _ => true
   end.
 
 (* ---------------------------------------------------------------- values *)
-Lemma char_pieces_agree : forall ps, forallb ascii_piece ps = true ->
-  map_rres lz_char_piece ps = ROk (map char_of_byte (concat ps)).
-Proof.
-  induction ps as [|p ps IH]; intros H; [reflexivity|].
-  cbn [forallb] in H. apply andb_prop in H. destruct H as [Hp Hps].
-  destruct p as [|c [|c2 p]]; try discriminate Hp. cbn [ascii_piece] in Hp.
-  cbn [map_rres concat app map]. rewrite (IH Hps).
-  assert (lz_char_piece [c] = ROk (char_of_byte c)) as Hc.
-  { unfold lz_char_piece, char_of_byte. cbn [str_eqb]. rewrite andb_true_r.
-    destruct (N.eqb c dot) eqn:Ed; [reflexivity|].
-    assert (pct_dec [c] = [c]) as Hd by (cbn [pct_dec]; destruct (c =? 37)%N eqn:E37; [apply N.eqb_eq in E37; subst c; reflexivity|reflexivity]).
-    rewrite Hd. rewrite (utf8_ascii1 c) by lia. cbn [utf8_first]. rewrite Hp. reflexivity. }
-  rewrite Hc. reflexivity.
-Qed.
-
-Lemma str_pieces_agree : forall ps, forallb (fun p => str_eqb (pct_dec p) p) ps = true ->
-  (forall p, In p ps -> utf8_valid p = true) ->
-  map_rres lz_str_piece ps = ROk (map str_of_piece ps).
-Proof.
-  induction ps as [|p ps IH]; intros H Hv; [reflexivity|].
-  cbn [forallb] in H. apply andb_prop in H. destruct H as [Hp Hps].
-  cbn [map_rres map]. rewrite (IH Hps) by (intros q Hq; apply Hv; right; exact Hq).
-  unfold lz_str_piece, str_of_piece. destruct (str_eqb p [dot]); [reflexivity|].
-  apply str_eqb_eq in Hp. rewrite Hp. rewrite (Hv p) by (left; reflexivity). reflexivity.
-Qed.
-
 Lemma dec_info_string_some : forall vb s, dec_info_string vb = ROk (Some s) -> s <> [] /\ utf8_valid s = true.
 Proof.
   intros vb s H. unfold dec_info_string in H.
@@ -150,26 +154,25 @@ Proof.
   intro Hs. subst s. cbn [length] in Hlen. lia.
 Qed.
 
-(* info/field/value.rs read_value = decoder/info/field/value.rs read_value outside the classes *)
+(* info/field/value.rs read_value = decoder/info/field/value.rs read_value *)
 Lemma info_kind_agree : forall ik k kd vb v, ik k = Some kd ->
-  dec_info_kind kd vb = ROk v -> info_plain ik (k, vb) = true -> lz_info_kind kd vb = ROk v.
+  dec_info_kind kd vb = ROk v -> info_ascii ik (k, vb) = true -> lz_info_kind kd vb = ROk v.
 Proof.
-  intros ik k kd vb v Hk H Hp. unfold info_plain in Hp. cbn [fst snd] in Hp. rewrite Hk in Hp.
+  intros ik k kd vb v Hk H Hp. unfold info_ascii in Hp. cbn [fst snd] in Hp. rewrite Hk in Hp.
   destruct kd as [a|a| |a|a]; try exact H; destruct a; try exact H.
   - (* Character array *)
     cbn [lz_info_kind]. cbn [dec_info_kind] in H. unfold dec_info_chars in H. unfold lz_info_chars.
     destruct (dec_info_string vb) as [o| |]; try discriminate H. cbn [rbind] in *.
     destruct o as [s|]; [|exact H]. cbn [rbind] in H. injection H as Hv. subst v.
-    unfold lz_chars. destruct s as [|b s]; [reflexivity|].
-    unfold chars_plain in Hp. rewrite (char_pieces_agree _ Hp). reflexivity.
-  - (* String array *)
-    cbn [lz_info_kind]. cbn [dec_info_kind] in H. unfold dec_info_strs in H. unfold lz_info_strs.
+    rewrite (flat_chars_ascii _ (ascii_split s Hp)). reflexivity.
+  - (* Character *)
+    cbn [lz_info_kind]. cbn [dec_info_kind] in H. unfold dec_info_char in H. unfold lz_info_char.
     destruct (dec_info_string vb) as [o| |] eqn:Ed; try discriminate H. cbn [rbind] in *.
-    destruct o as [s|]; [|exact H]. cbn [rbind] in H. injection H as Hv. subst v.
-    destruct (dec_info_string_some _ _ Ed) as [Hne Hu].
-    unfold lz_strs. destruct s as [|b s]; [contradiction|].
-    unfold strs_plain in Hp. rewrite (str_pieces_agree _ Hp); [reflexivity|].
-    apply (split_pieces_valid (length (b :: s))); [lia|exact Hu].
+    destruct o as [s|]; [|exact H].
+    destruct s as [|c [|c2 s]]; try discriminate H.
+    destruct (dec_info_string_some _ _ Ed) as [_ Hu]. apply utf8_valid_single in Hu.
+    unfold utf8_chars. cbn [length utf8_chars_fuel utf8_first].
+    destruct (c <? 128)%N eqn:E; [exact H|lia].
 Qed.
 
 (* ---------------------------------------------------------------- the IndexMap of distinct keys *)
@@ -221,7 +224,7 @@ Lemma info_fields_agree : forall strings ik n bs infos r ivs,
               | None => RErr
               | Some k => rbind (dec_info_kind k (snd kv)) (fun v => ROk (fst kv, v))
               end) infos = ROk ivs ->
-  forallb (info_plain ik) infos = true ->
+  forallb (info_ascii ik) infos = true ->
   lz_info_fields strings ik n bs = ROk ivs /\ map fst ivs = map fst infos /\ keys_distinct (map fst infos) = true.
 Proof.
   intros strings ik. induction n as [|n IH]; intros bs infos r ivs H Hm Hp; cbn [dec_fields_k] in H.
